@@ -1,6 +1,7 @@
 package main
 
 import (
+	"bytes"
 	"crypto/tls"
 	"fmt"
 	"net"
@@ -33,7 +34,7 @@ func init() {
 			}
 			return ps
 		},
-		MinObserved: []string{"requests_compared", "negative_frames", "goldap_requests", "connections_served_with_a_debug_level_logger"},
+		MinObserved: []string{"requests_compared", "negative_frames", "goldap_requests", "connections_served_with_a_debug_level_logger", "frames_stalled_midway_beyond_the_read_timeout"},
 	})
 }
 
@@ -419,6 +420,57 @@ func c01Negative(c *Ctx) {
 		c.Note("recovered_panics_in_server_log", n)
 	}
 	srv.StopWithin(patience)
+	c01StalledFrames(c)
+}
+
+// c01StalledFrames: a server with a read timeout and a client that stalls in the MIDDLE of a frame for longer than
+// that timeout, then sends the rest. The tail of the frame is chosen so that it would parse as a request of its own
+// (a delete whose DN bytes are an encoded bind). Whatever the server does about the stall - the only requests it may
+// ever hand to a handler are the ones the client sent, whole.
+func c01StalledFrames(c *Ctx) {
+	for round := 0; round < c.N(4, 40); round++ {
+		rc := &Recorder{}
+		srv, err := startSrv(SrvCfg{ReadTimeout: 250 * time.Millisecond}, func(m *gldap.Mux) { rc.RegisterAll(m, c01ExtNames) })
+		if err != nil {
+			c.Inconclusive("server start: " + err.Error())
+			return
+		}
+		cl, err := dialRaw(srv.Addr, nil)
+		if err != nil {
+			c.Inconclusive("dial: " + err.Error())
+			srv.StopWithin(patience)
+			return
+		}
+		cl.Send(sber.Message(1, sber.BindRequest(3, []byte("cn=first"), []byte("p")), nil).Encode())
+		cl.ReadMsg(patience)
+		inner := sber.Message(7, sber.BindRequest(3, []byte("cn=never-sent"), []byte("p")), nil).Encode()
+		if round%2 == 1 {
+			inner = sber.Message(7, sber.DelRequest([]byte("cn=never-sent")), nil).Encode()
+		}
+		frame := sber.Message(2, sber.DelRequest(inner), nil).Encode()
+		cut := len(frame) - len(inner) // the head: envelope, message id, delete tag and length
+		cl.Send(frame[:cut])
+		time.Sleep(time.Duration(450+100*(round%3)) * time.Millisecond)
+		cl.Send(frame[cut:])
+		cl.C.SetReadDeadline(time.Now().Add(time.Second))
+		for {
+			if _, err := sber.ReadFrame(cl.br); err != nil {
+				break
+			}
+		}
+		cl.Close()
+		time.Sleep(5 * time.Millisecond)
+		for _, o := range rc.All() {
+			switch {
+			case o.Kind == "bind" && o.ID == 1 && string(o.Name) == "cn=first":
+			case o.Kind == "delete" && o.ID == 2 && bytes.Equal(o.DN, inner):
+			default:
+				c.Violate("handler ran for a request the client did not send", fmt.Sprintf("read timeout 250ms, the client stalled in the middle of a frame: a %s request (message id %d, name %q, dn %q) reached route %s", o.Kind, o.ID, o.Name, trunc(o.DN, 40), o.Route), map[string]any{"observed": o, "round": round})
+			}
+		}
+		c.Count("frames_stalled_midway_beyond_the_read_timeout", 1)
+		srv.StopWithin(patience)
+	}
 }
 
 // ---- go-ldap client as the second, independent encoder
